@@ -120,6 +120,16 @@ let handle (s : sexp) : string = match s with
       let xp = { lp_dmin = z_of xdmin; lp_coefs = list_of q_of xcoefs; lp_isz = false } in
       let g = { la_I = ip; la_X = xp } in
       "(" ^ sb (check_completion (list_of q_of fin) g (q_of tol)) ^ " " ^ so s_lpoly (unit_residual ip xp) ^ ")"
+  | L [A "pcompletion"; pre; pim; idmin; icoefs; xdmin; xcoefs; tol; ctol] ->
+      let ip = { lp_dmin = z_of idmin; lp_coefs = list_of q_of icoefs; lp_isz = false } in
+      let xp = { lp_dmin = z_of xdmin; lp_coefs = list_of q_of xcoefs; lp_isz = false } in
+      let g = { la_I = ip; la_X = xp } in
+      let pre = list_of q_of pre and pim = list_of q_of pim in
+      "(" ^ sb (check_pcompletion pre pim g (q_of tol) (q_of ctol)) ^ " " ^ so sq (corner_norm_q g pre pim)
+      ^ " " ^ so s_lpoly (unit_residual ip xp) ^ ")"
+  | L [A "c02"; phis; pre; pim; tol] ->
+      let phis = list_of q_of phis and pre = list_of q_of pre and pim = list_of q_of pim in
+      "(" ^ sb (check_c02 phis pre pim (q_of tol)) ^ " " ^ so sz (corner_norm_i phis pre pim) ^ ")"
   | L [A "scale"] -> sz scaleZ
   | _ -> failwith "unknown command"
 
